@@ -230,3 +230,361 @@ Proof.
       destruct (Hprf j) as [E|[E|E]]; rewrite E; cbn [ph]; auto.
       apply Hrun in E. rewrite Hact in E. contradiction.
 Qed.
+
+(* ---------------------------------------------------------------- the simulation: its records, named *)
+Definition upd (m : sim) (l : st) (q : list nat) (w : bool) (o : list oev) : sim :=
+  {| s_lim := l; s_next := s_next m; s_queue := q; s_act := s_act m; s_kind := s_kind m; s_waiter := w; s_out := o;
+     s_maxin := s_maxin m; s_npanic := s_npanic m; s_bad := s_bad m |}.
+Definition bump (m : sim) (k : nat) : sim :=
+  {| s_lim := s_lim m; s_next := S (s_next m); s_queue := s_queue m; s_act := s_act m; s_kind := set (s_kind m) (s_next m) k;
+     s_waiter := s_waiter m; s_out := s_out m; s_maxin := s_maxin m; s_npanic := s_npanic m; s_bad := s_bad m |}.
+Definition after_in (m : sim) (i : nat) : sim :=
+  {| s_lim := l_in (s_lim m) i; s_next := s_next m; s_queue := s_queue m; s_act := s_act m ++ [i]; s_kind := s_kind m;
+     s_waiter := s_waiter m; s_out := (E_START, zi i, 0%Z) :: (E_SUBMIT, zi i, 0%Z) :: s_out m;
+     s_maxin := s_maxin m; s_npanic := s_npanic m; s_bad := s_bad m |}.
+Definition inmax (m : sim) : sim := with_maxin m (length (s_act m)).
+Definition ended (m : sim) (l : st) (j : nat) (o : list oev) (np : nat) : sim :=
+  {| s_lim := l; s_next := s_next m; s_queue := s_queue m; s_act := remove_id j (s_act m); s_kind := s_kind m;
+     s_waiter := s_waiter m; s_out := o; s_maxin := s_maxin m; s_npanic := np; s_bad := s_bad m |}.
+
+Ltac simp_sim := cbn [inmax with_maxin after_in bump upd ended s_lim s_next s_queue s_act s_out s_waiter s_bad s_maxin s_npanic s_kind].
+
+Lemma let_in_spec m i : tasks (s_lim m) i = Pending ->
+  let_in m i = if tokens (s_lim m) <? limit (s_lim m) then Some (after_in m i) else None.
+Proof.
+  intros Hp. unfold let_in. destruct (Nat.ltb_spec (tokens (s_lim m)) (limit (s_lim m))).
+  - rewrite accepts_in by auto. reflexivity.
+  - rewrite accepts_in_none by (auto; lia). reflexivity.
+Qed.
+
+Lemma op_go_eq m k : op_go m k =
+  if s_waiter m || (MAXTASKS <=? s_next m) then m else
+  match s_queue m with
+  | [] => match let_in (bump m k) (s_next m) with
+          | Some m2 => inmax m2
+          | None => upd (bump m k) (s_lim m) [s_next m] (s_waiter m) (s_out m)
+          end
+  | q => upd (bump m k) (s_lim m) (q ++ [s_next m]) (s_waiter m) (s_out m)
+  end.
+Proof. reflexivity. Qed.
+Lemma rel_spawn_eq m kind : rel_spawn m kind =
+  if kind_spawns kind && (match s_queue m with [] => true | _ => false end) && (s_next m <? MAXTASKS) then
+    match let_in (bump m 0) (s_next m) with Some m' => inmax m' | None => m end
+  else m.
+Proof. reflexivity. Qed.
+Lemma rel_end_eq m j kind : rel_end m j kind =
+  if kind_panics kind then
+    match accepts (s_lim m) [Panic j (panic_value j); Cleanup j] with
+    | None => None
+    | Some l2 => Some (ended m l2 j ((E_PANIC, zi j, zi (panic_value j)) :: (E_RAISE, zi j, zi (panic_value j)) :: s_out m) (S (s_npanic m)))
+    end
+  else
+    match accepts (s_lim m) [Return j; Cleanup j] with
+    | None => None
+    | Some l2 => Some (ended m l2 j ((E_RETURN, zi j, 0%Z) :: s_out m) (s_npanic m))
+    end.
+Proof. unfold rel_end. destruct (kind_panics kind); reflexivity. Qed.
+Lemma rel_after_eq m2 : rel_after m2 =
+  match s_queue m2 with
+  | h :: q => match let_in (upd m2 (s_lim m2) q (s_waiter m2) (s_out m2)) h with Some m4 => inmax m4 | None => mark_bad m2 end
+  | [] => if s_waiter m2
+          then (if wg (s_lim m2) =? 0 then upd m2 (s_lim m2) [] false ((E_WAITRET, 0%Z, 0%Z) :: s_out m2) else m2)
+          else m2
+  end.
+Proof.
+  unfold rel_after. destruct (s_queue m2); [|reflexivity]. destruct (s_waiter m2); [|reflexivity].
+  cbn [step]. destruct (wg (s_lim m2) =? 0); reflexivity.
+Qed.
+Lemma op_wait_eq m : op_wait m =
+  if s_waiter m then m else
+  match s_queue m with
+  | _ :: _ => m
+  | [] => if wg (s_lim m) =? 0
+          then upd m (s_lim m) [] false ((E_WAITRET, 0%Z, 0%Z) :: (E_WAITCALL, 0%Z, 0%Z) :: s_out m)
+          else upd m (s_lim m) [] true ((E_WAITCALL, 0%Z, 0%Z) :: s_out m)
+  end.
+Proof.
+  unfold op_wait. destruct (s_waiter m); [reflexivity|]. destruct (s_queue m); [|reflexivity].
+  cbn [step]. destruct (wg (s_lim m) =? 0); reflexivity.
+Qed.
+
+(* ---------------------------------------------------------------- the invariant of the simulation *)
+Definition mu (m : sim) : nat := (MAXTASKS - s_next m) + length (s_queue m) + length (s_act m).
+
+Record SB (n : Z) (m : sim) : Prop := {
+  b_core : Core n (s_lim m) (s_act m) (s_out m);
+  b_qnd : NoDup (s_queue m);
+  b_q : forall j, In j (s_queue m) -> j < s_next m /\ tasks (s_lim m) j = Pending;
+  b_hi : forall j, s_next m <= j -> tasks (s_lim m) j = Pending;
+  b_lo : forall j, j < s_next m -> tasks (s_lim m) j = Pending -> In j (s_queue m);
+  b_next : s_next m <= MAXTASKS;
+  b_bad : s_bad m = false;
+  b_max : s_maxin m <= limit (s_lim m);
+  b_np : s_npanic m = n_panics (rev (s_out m));
+  b_cnt : length (s_queue m) + length (s_act m) <= s_next m
+}.
+Definition Full (d : nat) (m : sim) : Prop := s_queue m <> [] -> length (s_act m) + d = limit (s_lim m).
+Definition Wt (m : sim) : Prop := s_waiter m = true -> s_queue m = [] /\ has_call (s_out m) = true.
+Definition Wa (m : sim) : Prop := s_waiter m = true -> s_act m <> [].
+Definition SI (n : Z) (m : sim) : Prop := SB n m /\ Full 0 m /\ Wt m /\ Wa m.
+
+Lemma n_panics_rev_cons e o : n_panics (rev (e :: o)) = n_panics (rev o) + (if (fst (fst e) =? E_PANIC)%Z then 1 else 0).
+Proof. cbn [rev]. rewrite n_panics_app. f_equal. unfold n_panics. cbn [filter]. destruct (fst (fst e) =? E_PANIC)%Z; reflexivity. Qed.
+
+(* a fresh task (id = s_next) is admitted at once *)
+Lemma SB_bump_in n m k : SB n m -> s_queue m = [] -> s_next m < MAXTASKS -> tokens (s_lim m) < limit (s_lim m) ->
+  SB n (inmax (after_in (bump m k) (s_next m))).
+Proof.
+  intros [Hc Hqnd Hq Hhi Hlo Hnx Hbad Hmax Hnp Hcnt] Eq Hlt Htok.
+  pose proof (c_tok _ _ _ _ Hc) as Et. pose proof (Hhi _ (le_n _)) as Hp.
+  constructor; simp_sim.
+  - apply Core_letin; auto. lia.
+  - exact Hqnd.
+  - rewrite Eq. intros j [].
+  - intros j Hj. rewrite tasks_in. destruct (Nat.eqb_spec j (s_next m)); [lia|]. apply Hhi. lia.
+  - intros j Hj. rewrite tasks_in. destruct (Nat.eqb_spec j (s_next m)); [discriminate|]. intros Hpj. apply Hlo; auto. lia.
+  - lia.
+  - exact Hbad.
+  - cbn [l_in limit]. rewrite app_length. cbn [length]. apply Nat.max_lub; lia.
+  - rewrite !n_panics_rev_cons. cbn [fst]. rewrite Hnp. cbn. lia.
+  - rewrite app_length. cbn [length]. lia.
+Qed.
+
+(* a fresh task is queued *)
+Lemma SB_bump_enq n m k q' : SB n m -> s_next m < MAXTASKS -> q' = s_queue m ++ [s_next m] ->
+  SB n (upd (bump m k) (s_lim m) q' (s_waiter m) (s_out m)).
+Proof.
+  intros [Hc Hqnd Hq Hhi Hlo Hnx Hbad Hmax Hnp Hcnt] Hlt ->. pose proof (Hhi _ (le_n _)) as Hp.
+  constructor; simp_sim; auto.
+  - apply nodup_snoc; auto. intros X. apply Hq in X. lia.
+  - intros j Hj. apply in_app_iff in Hj as [Hj|[<-|[]]]; [apply Hq in Hj as [A B]; split; auto|split; auto].
+  - intros j Hj. apply Hhi. lia.
+  - intros j Hj Hpj. apply in_app_iff. destruct (Nat.eq_dec j (s_next m)) as [->|]; [right; left; reflexivity|left; apply Hlo; auto; lia].
+  - rewrite app_length. cbn [length]. lia.
+Qed.
+
+(* the body of j ends *)
+Lemma SB_ended_ret n m j : SB n m -> In j (s_act m) ->
+  SB n (ended m (l_ret (s_lim m) j) j ((E_RETURN, zi j, 0%Z) :: s_out m) (s_npanic m)).
+Proof.
+  intros [Hc Hqnd Hq Hhi Hlo Hnx Hbad Hmax Hnp Hcnt] Hin.
+  assert (Hr : tasks (s_lim m) j = Running) by (apply (c_run _ _ _ _ Hc); exact Hin).
+  pose proof (remove_id_length j _ (c_nd _ _ _ _ Hc) Hin) as Hlen.
+  constructor; simp_sim; auto.
+  - apply Core_ret; auto.
+  - intros x Hx. rewrite tasks_ret. destruct (Hq x Hx) as [A B]. destruct (Nat.eqb_spec x j); [congruence|auto].
+  - intros x Hx. rewrite tasks_ret. specialize (Hhi x Hx). destruct (Nat.eqb_spec x j); [congruence|auto].
+  - intros x Hx. rewrite tasks_ret. destruct (Nat.eqb_spec x j); [discriminate|auto].
+  - rewrite n_panics_rev_cons. cbn [fst]. rewrite Hnp. cbn. lia.
+  - lia.
+Qed.
+Lemma SB_ended_pan n m j v : SB n m -> In j (s_act m) ->
+  SB n (ended m (l_pan (s_lim m) j v) j ((E_PANIC, zi j, zi v) :: (E_RAISE, zi j, zi v) :: s_out m) (S (s_npanic m))).
+Proof.
+  intros [Hc Hqnd Hq Hhi Hlo Hnx Hbad Hmax Hnp Hcnt] Hin.
+  assert (Hr : tasks (s_lim m) j = Running) by (apply (c_run _ _ _ _ Hc); exact Hin).
+  pose proof (remove_id_length j _ (c_nd _ _ _ _ Hc) Hin) as Hlen.
+  constructor; simp_sim; auto.
+  - apply Core_pan; auto.
+  - intros x Hx. rewrite tasks_pan. destruct (Hq x Hx) as [A B]. destruct (Nat.eqb_spec x j); [congruence|auto].
+  - intros x Hx. rewrite tasks_pan. specialize (Hhi x Hx). destruct (Nat.eqb_spec x j); [congruence|auto].
+  - intros x Hx. rewrite tasks_pan. destruct (Nat.eqb_spec x j); [discriminate|auto].
+  - rewrite !n_panics_rev_cons. cbn [fst]. rewrite Hnp. cbn. lia.
+  - lia.
+Qed.
+
+(* the head of the queue is admitted *)
+Lemma SB_queue_in n m h q : SB n m -> s_queue m = h :: q -> tokens (s_lim m) < limit (s_lim m) ->
+  SB n (inmax (after_in (upd m (s_lim m) q (s_waiter m) (s_out m)) h)).
+Proof.
+  intros [Hc Hqnd Hq Hhi Hlo Hnx Hbad Hmax Hnp Hcnt] Eq Htok.
+  pose proof (c_tok _ _ _ _ Hc) as Et. rewrite Eq in *. inversion Hqnd as [|? ? Hnh Hndq]; subst.
+  destruct (Hq h (or_introl eq_refl)) as [Hh Hp].
+  constructor; simp_sim; auto.
+  - apply Core_letin; auto. lia.
+  - intros j Hj. rewrite tasks_in. destruct (Nat.eqb_spec j h); [subst; contradiction|]. apply Hq. right; exact Hj.
+  - intros j Hj. rewrite tasks_in. specialize (Hhi j Hj). destruct (Nat.eqb_spec j h); [lia|auto].
+  - intros j Hj. rewrite tasks_in. destruct (Nat.eqb_spec j h); [discriminate|]. intros Hpj.
+    destruct (Hlo j Hj Hpj) as [X|X]; [congruence|exact X].
+  - cbn [l_in limit]. rewrite app_length. cbn [length]. apply Nat.max_lub; lia.
+  - rewrite !n_panics_rev_cons. cbn [fst]. rewrite Hnp. cbn. lia.
+  - rewrite app_length. cbn [length] in *. lia.
+Qed.
+
+Lemma SB_call n m w : SB n m -> s_queue m = [] -> SB n (upd m (s_lim m) [] w ((E_WAITCALL, 0%Z, 0%Z) :: s_out m)).
+Proof.
+  intros [Hc Hqnd Hq Hhi Hlo Hnx Hbad Hmax Hnp Hcnt] Eq. rewrite Eq in *.
+  constructor; simp_sim; auto.
+  - apply Core_call; auto.
+  - rewrite n_panics_rev_cons. cbn [fst]. rewrite Hnp. cbn. lia.
+Qed.
+Lemma SB_wret n m : SB n m -> s_queue m = [] -> s_act m = [] -> has_call (s_out m) = true ->
+  SB n (upd m (s_lim m) [] false ((E_WAITRET, 0%Z, 0%Z) :: s_out m)).
+Proof.
+  intros [Hc Hqnd Hq Hhi Hlo Hnx Hbad Hmax Hnp Hcnt] Eq Ea Hcall. rewrite Eq in *.
+  constructor; simp_sim; auto.
+  - apply Core_wret; auto.
+  - rewrite n_panics_rev_cons. cbn [fst]. rewrite Hnp. cbn. lia.
+Qed.
+
+(* ---------------------------------------------------------------- every operation of a script keeps the invariant *)
+Lemma has_call_cons e o : has_call o = true -> has_call (e :: o) = true.
+Proof. intros H. unfold has_call in *. cbn [existsb]. rewrite H. apply orb_true_r. Qed.
+
+Lemma SI_op_go n m k : SI n m -> SI n (op_go m k).
+Proof.
+  intros HSI. pose proof HSI as (HB & HF & HWt & HWa). rewrite op_go_eq.
+  destruct (s_waiter m || (MAXTASKS <=? s_next m)) eqn:Eg; [exact HSI|].
+  apply orb_false_elim in Eg as [Ew Elt]. apply Nat.leb_gt in Elt.
+  pose proof (b_hi _ _ HB _ (le_n _)) as Hp. pose proof (b_core _ _ HB) as Hc.
+  destruct (s_queue m) as [|q0 q] eqn:Eq.
+  - rewrite let_in_spec by exact Hp. change (s_lim (bump m k)) with (s_lim m).
+    destruct (Nat.ltb_spec (tokens (s_lim m)) (limit (s_lim m))) as [Hlt|Hge].
+    + split; [apply SB_bump_in; auto|]. unfold Full, Wt, Wa. simp_sim. rewrite Eq, Ew. repeat split; congruence.
+    + split; [apply SB_bump_enq; auto; rewrite Eq; reflexivity|].
+      unfold Full, Wt, Wa. simp_sim. rewrite Ew. repeat split; try congruence.
+      intros _. pose proof (c_tok _ _ _ _ Hc). pose proof (c_le _ _ _ _ Hc). lia.
+  - split; [apply SB_bump_enq; auto; rewrite Eq; reflexivity|].
+    unfold Full, Wt, Wa. simp_sim. rewrite Ew. repeat split; try congruence.
+    intros _. apply HF. rewrite Eq. discriminate.
+Qed.
+
+Lemma SI_rel_spawn n m kind : SI n m ->
+  SI n (rel_spawn m kind) /\ mu (rel_spawn m kind) = mu m /\ (forall j, In j (s_act m) -> In j (s_act (rel_spawn m kind))).
+Proof.
+  intros HSI. pose proof HSI as (HB & HF & HWt & HWa). rewrite rel_spawn_eq.
+  destruct (kind_spawns kind && match s_queue m with [] => true | _ :: _ => false end && (s_next m <? MAXTASKS)) eqn:Ec; [|auto].
+  apply andb_true_iff in Ec as [Ec Elt]. apply andb_true_iff in Ec as [_ Eq]. apply Nat.ltb_lt in Elt.
+  assert (Hq : s_queue m = []) by (destruct (s_queue m); [reflexivity|discriminate]).
+  pose proof (b_hi _ _ HB _ (le_n _)) as Hp.
+  rewrite let_in_spec by exact Hp. change (s_lim (bump m 0)) with (s_lim m).
+  destruct (Nat.ltb_spec (tokens (s_lim m)) (limit (s_lim m))) as [Hlt|Hge]; [|auto].
+  split; [|split].
+  - split; [apply SB_bump_in; auto|]. unfold Full, Wt, Wa in *. simp_sim. rewrite Hq. repeat split; try congruence.
+    + apply has_call_cons, has_call_cons. apply HWt; auto.
+    + destruct (s_act m); discriminate.
+  - unfold mu. simp_sim. rewrite app_length. cbn [length]. lia.
+  - intros j Hj. simp_sim. apply in_or_app. left; exact Hj.
+Qed.
+
+Lemma SI_rel_end n m j kind : SI n m -> In j (s_act m) ->
+  exists m2, rel_end m j kind = Some m2 /\ SB n m2 /\ Full 1 m2 /\ Wt m2 /\ mu m2 + 1 = mu m.
+Proof.
+  intros (HB & HF & HWt & HWa) Hin. pose proof (b_core _ _ HB) as Hc.
+  assert (Hr : tasks (s_lim m) j = Running) by (apply (c_run _ _ _ _ Hc); exact Hin).
+  pose proof (remove_id_length j _ (c_nd _ _ _ _ Hc) Hin) as Hlen.
+  rewrite rel_end_eq. destruct (kind_panics kind).
+  - rewrite accepts_pan by exact Hr. eexists. split; [reflexivity|]. split; [apply SB_ended_pan; auto|].
+    unfold Full, Wt, mu in *. simp_sim. cbn [l_pan limit]. repeat split.
+    + intros X. specialize (HF X). lia.
+    + apply HWt; auto.
+    + apply has_call_cons, has_call_cons. apply HWt; auto.
+    + lia.
+  - rewrite accepts_ret by exact Hr. eexists. split; [reflexivity|]. split; [apply SB_ended_ret; auto|].
+    unfold Full, Wt, mu in *. simp_sim. cbn [l_ret limit]. repeat split.
+    + intros X. specialize (HF X). lia.
+    + apply HWt; auto.
+    + apply has_call_cons. apply HWt; auto.
+    + lia.
+Qed.
+
+Lemma SI_rel_after n m2 : SB n m2 -> Full 1 m2 -> Wt m2 -> SI n (rel_after m2) /\ mu (rel_after m2) = mu m2.
+Proof.
+  intros HB HF HWt. pose proof (b_core _ _ HB) as Hc. rewrite rel_after_eq. destruct (s_queue m2) as [|h q] eqn:Eq.
+  - destruct (s_waiter m2) eqn:Ew.
+    + destruct (Nat.eqb_spec (wg (s_lim m2)) 0) as [Hz|Hnz].
+      * assert (Ha : s_act m2 = []) by (rewrite (c_wg _ _ _ _ Hc) in Hz; destruct (s_act m2); [reflexivity|discriminate]).
+        destruct (HWt Ew) as [_ Hcall]. split.
+        -- split; [apply SB_wret; auto|]. unfold Full, Wt, Wa. simp_sim. repeat split; congruence.
+        -- unfold mu. simp_sim. rewrite Eq. reflexivity.
+      * split; [|reflexivity]. split; [exact HB|]. unfold Full, Wt, Wa in *. rewrite Eq in *. repeat split; try congruence.
+        -- apply HWt; auto.
+        -- intros _ Ha. rewrite (c_wg _ _ _ _ Hc), Ha in Hnz. apply Hnz. reflexivity.
+    + split; [|reflexivity]. split; [exact HB|]. unfold Full, Wt, Wa in *. rewrite Eq, Ew in *. repeat split; congruence.
+  - assert (Hp : tasks (s_lim m2) h = Pending) by (apply (b_q _ _ HB); rewrite Eq; left; reflexivity).
+    assert (Hlt : tokens (s_lim m2) < limit (s_lim m2)).
+    { rewrite (c_tok _ _ _ _ Hc). unfold Full in HF. rewrite Eq in HF. specialize (HF ltac:(discriminate)). lia. }
+    rewrite let_in_spec by exact Hp. change (s_lim (upd m2 (s_lim m2) q (s_waiter m2) (s_out m2))) with (s_lim m2).
+    destruct (Nat.ltb_spec (tokens (s_lim m2)) (limit (s_lim m2))); [|lia]. split.
+    + split; [apply SB_queue_in; auto|]. unfold Full, Wt, Wa in *. rewrite Eq in *. simp_sim. cbn [l_in limit]. split; [|split].
+      * intros _. rewrite app_length. cbn [length]. specialize (HF ltac:(discriminate)). lia.
+      * intros X. destruct (HWt X) as [Y _]. discriminate.
+      * intros X. destruct (HWt X) as [Y _]. discriminate.
+    + unfold mu. simp_sim. rewrite Eq, app_length. cbn [length]. lia.
+Qed.
+
+Lemma SI_op_rel n m k : SI n m -> SI n (op_rel m k) /\ (s_act m <> [] -> mu (op_rel m k) < mu m).
+Proof.
+  intros HSI. unfold op_rel. destruct (s_act m) as [|a0 act'] eqn:Ea; [split; [exact HSI|congruence]|]. cbv zeta.
+  match goal with |- context [rel_end (rel_spawn m ?kind) ?j ?kind] =>
+    assert (Hj : In j (s_act m)) by (rewrite Ea; apply nth_In; apply Nat.mod_upper_bound; discriminate);
+    destruct (SI_rel_spawn n m kind HSI) as (HS1 & Hmu1 & Hin1);
+    destruct (SI_rel_end n (rel_spawn m kind) j kind HS1 (Hin1 _ Hj)) as (m2 & E2 & HB2 & HF2 & HWt2 & Hmu2);
+    rewrite E2
+  end.
+  destruct (SI_rel_after n m2 HB2 HF2 HWt2) as [HS3 Hmu3]. split; auto. intros _. lia.
+Qed.
+
+Lemma SI_op_wait n m : SI n m -> SI n (op_wait m).
+Proof.
+  intros HSI. pose proof HSI as (HB & HF & HWt & HWa). pose proof (b_core _ _ HB) as Hc. rewrite op_wait_eq.
+  destruct (s_waiter m) eqn:Ew; [exact HSI|]. destruct (s_queue m) as [|h q] eqn:Eq; [|exact HSI].
+  destruct (Nat.eqb_spec (wg (s_lim m)) 0) as [Hz|Hnz].
+  - assert (Ha : s_act m = []) by (rewrite (c_wg _ _ _ _ Hc) in Hz; destruct (s_act m); [reflexivity|discriminate]).
+    split.
+    + apply (SB_wret n (upd m (s_lim m) [] false ((E_WAITCALL, 0%Z, 0%Z) :: s_out m))); auto. apply SB_call; auto.
+    + unfold Full, Wt, Wa. simp_sim. repeat split; congruence.
+  - split; [apply SB_call; auto|]. unfold Full, Wt, Wa. simp_sim. repeat split; try congruence.
+    intros _ Ha. rewrite (c_wg _ _ _ _ Hc), Ha in Hnz. apply Hnz. reflexivity.
+Qed.
+
+Lemma SI_run_script n : forall ops m, SI n m -> SI n (run_script m ops).
+Proof.
+  fix IH 1. intros [|c [|a r]] m H; cbn [run_script]; auto. apply IH.
+  destruct (c =? 1)%Z; [apply SI_op_go; auto|]. destruct (c =? 2)%Z; [apply SI_op_rel; auto|]. destruct (c =? 3)%Z; [apply SI_op_wait; auto|auto].
+Qed.
+
+Lemma SI_sim0 n : SI n (sim0 n).
+Proof.
+  split; [|unfold Full, Wt, Wa; cbn [sim0 s_queue s_waiter]; repeat split; congruence].
+  constructor; cbn [sim0 s_lim s_act s_out s_queue s_next s_bad s_maxin s_npanic length]; auto; try lia; try (intros j []).
+  - constructor; cbn [new_limiter limit tokens wg tasks length]; auto; try lia.
+    + reflexivity.
+    + constructor.
+    + intros j. split; [intros []|discriminate].
+    + constructor; cbn [rev]; auto. constructor.
+  - constructor.
+Qed.
+
+(* ---------------------------------------------------------------- the fuel of drain suffices *)
+Lemma SI_drain n : forall f m, SI n m -> mu m <= f -> SI n (drain f m) /\ s_act (drain f m) = [].
+Proof.
+  induction f as [|f IH]; intros m H Hmu; cbn [drain].
+  - split; auto. unfold mu in Hmu. destruct (s_act m); [reflexivity|cbn [length] in Hmu; lia].
+  - destruct (s_act m) as [|a0 t] eqn:Ea; [auto|]. destruct (SI_op_rel n m 0 H) as [H1 H2]. apply IH; auto.
+    specialize (H2 ltac:(rewrite Ea; discriminate)). lia.
+Qed.
+Lemma mu_bound n m : SI n m -> mu m <= MAXTASKS.
+Proof. intros (HB & _). unfold mu. pose proof (b_next _ _ HB). pose proof (b_cnt _ _ HB). lia. Qed.
+
+(* the state from which [simulate] prints its answer *)
+Definition final_sim (n : Z) (ops : list Z) : sim := op_wait (drain (3 * MAXTASKS) (run_script (sim0 n) ops)).
+
+Lemma final_sim_ok n ops :
+  let m := final_sim n ops in
+  SI n m /\ s_bad m = false /\ s_waiter m = false /\ s_queue m = [] /\ s_act m = [] /\
+  exists o, s_out m = (E_WAITRET, 0%Z, 0%Z) :: o.
+Proof.
+  unfold final_sim. pose proof (SI_run_script n ops _ (SI_sim0 n)) as H0.
+  destruct (SI_drain n (3 * MAXTASKS) _ H0) as [H1 Ha]; [pose proof (mu_bound _ _ H0); lia|].
+  set (m0 := drain (3 * MAXTASKS) (run_script (sim0 n) ops)) in *.
+  pose proof H1 as (HB & HF & HWt & HWa). pose proof (b_core _ _ HB) as Hc.
+  assert (Hq : s_queue m0 = []).
+  { destruct (s_queue m0) eqn:Eq; [reflexivity|]. unfold Full in HF. rewrite Eq, Ha in HF. specialize (HF ltac:(discriminate)).
+    pose proof (eff_limit_pos n). rewrite (c_lim _ _ _ _ Hc) in HF. cbn [length] in HF. lia. }
+  assert (Hw : s_waiter m0 = false) by (destruct (s_waiter m0) eqn:Ew; [exfalso; apply (HWa Ew Ha)|reflexivity]).
+  pose proof (SI_op_wait n m0 H1) as H2. cbv zeta. split; [exact H2|].
+  rewrite op_wait_eq in *. rewrite Hw, Hq in *.
+  assert (Hz : wg (s_lim m0) =? 0 = true) by (rewrite (c_wg _ _ _ _ Hc), Ha; reflexivity). rewrite Hz in *.
+  simp_sim. repeat split; auto. { apply (b_bad _ _ HB). } eauto.
+Qed.
